@@ -20,7 +20,7 @@ RULE = (
     "an id., and as a page range) x 3 pools."
 )
 ASSUMPTIONS = [
-    "three pre-validated value pools of party names / reporters / pages (all enumerated in both tiers)",
+    "four pre-validated value pools of party names / reporters / pages (all enumerated in both tiers)",
     "id. offsets {+2, -5, +500}: +2 is within the opinion, -5 before its first page, +500 implausibly far",
     "nothing is asserted about ambiguous references (C07 covers them) nor about an id. that follows one",
 ]
@@ -29,6 +29,8 @@ POOLS = [
     [("Foo", "Bar", "1", "U.S.", "10"), ("Smith", "Jones", "1", "U.S.", "50"), ("Adams", "Baker", "2", "F.2d", "20")],
     [("Roe", "Wade", "410", "U.S.", "113"), ("Doe", "Bolton", "410", "U.S.", "179"), ("Miranda", "Arizona", "384", "U.S.", "436")],
     [("Alpha", "Beta", "5", "F.3d", "100"), ("Gamma", "Delta", "5", "F.3d", "300"), ("Kappa", "Sigma", "7", "Cal. 4th", "40")],
+    # sibling series of one reporter family with the same volume (and, for two of them, the same page): distinct reporters
+    [("Adams", "Baker", "100", "F.2d", "200"), ("Clark", "Dunn", "100", "F.3d", "200"), ("Evans", "Flynn", "100", "F.", "350")],
 ]
 NCASES = 3
 L = {"quick": 5, "thorough": 6}
